@@ -22,7 +22,7 @@ trap 'git -C /repo checkout -- .' EXIT
 res=""
 for id in "$@"; do
   out=$(./check run $id --tier quick 2>&1); rc=$?
-  msg=$(echo "$out" | grep -m1 "message=" | sed 's/^ *//' | cut -c1-300)
+  msg=$(echo "$out" | grep -a -m1 "message=" | sed 's/^ *//' | cut -c1-300)
   echo "   $id exit=$rc $msg"
   res="$res$id:$rc;"
 done
